@@ -452,6 +452,57 @@ fn run_top(t: &mut Tape, cx: &mut Cx) -> Result<(), String> {
     run_generic(&m, &lay, t, cx)
 }
 
+/// Collections with many regions (lookups may change strategy with the number of regions) and
+/// regions whose mapping is not writable (queries do not depend on the protection).
+#[cfg(not(feature = "xen"))]
+fn run_many(t: &mut Tape, cx: &mut Cx) -> Result<(), String> {
+    use vm_memory::{GuestMemoryMmap, GuestRegionMmap, MmapRegion};
+    let n = match t.below(4) {
+        0 => 16,
+        1 => 17,
+        2 => 18 + t.idx(16),
+        _ => 1 + t.idx(40),
+    };
+    let mut regs = Vec::new();
+    let mut lay = Layout { regs: vec![] };
+    let mut cur = 0x1000u64 * t.below(3);
+    let mut readonly = 0;
+    for _ in 0..n {
+        let len = t.pick(&[1u64, 0x1000, 0x1000, 7, 0x1001]);
+        let prot = if t.chance(1, 4) {
+            readonly += 1;
+            libc::PROT_READ
+        } else {
+            libc::PROT_READ | libc::PROT_WRITE
+        };
+        let m = MmapRegion::<()>::build(None, len as usize, prot, libc::MAP_ANONYMOUS | libc::MAP_PRIVATE).map_err(|e| format!("build: {:?}", e))?;
+        regs.push(GuestRegionMmap::new(m, GuestAddress(cur)).map_err(|e| format!("{:?}", e))?);
+        lay.regs.push((cur, len));
+        // adjacent, or after a gap
+        cur += len + if t.chance(1, 3) { 0 } else { 1 + t.below(0x2000) };
+    }
+    let m = GuestMemoryMmap::from_regions(regs).map_err(|e| format!("{:?}", e))?;
+    note!(cx, "{} regions, {} of them read-only", n, readonly);
+    cx.nt(if n > 16 { "more_than_16_regions" } else { "up_to_16_regions" });
+    if readonly > 0 {
+        cx.nt("read_only_region");
+    }
+    // every region start, end and the bytes around them
+    for &(s, l) in &lay.regs {
+        for a in [s, s + l - 1, s + l, s.wrapping_sub(1)] {
+            point_queries(&m, &lay, a, cx)?;
+            range_queries(&m, &lay, a, 1, cx)?;
+            range_queries(&m, &lay, a, 2, cx)?;
+        }
+    }
+    run_generic(&m, &lay, t, cx)
+}
+
+#[cfg(feature = "xen")]
+fn run_many(_t: &mut Tape, _cx: &mut Cx) -> Result<(), String> {
+    Ok(())
+}
+
 pub fn property() -> Property {
     Property {
         id: "C02",
@@ -462,6 +513,7 @@ pub fn property() -> Property {
             SubCheck { name: "mock", builds: &[Build::Std], kind: Kind::Random { quick: 6_000, thorough: 400_000, max_words: 160 }, run: run_mock },
             SubCheck { name: "tiny_universes", builds: &[Build::Std, Build::Xen], kind: Kind::Exhaustive { gen: gen_tiny }, run: run_tiny },
             SubCheck { name: "regress", builds: &[Build::Std], kind: Kind::Exhaustive { gen: gen_regress }, run: run_regress },
+            SubCheck { name: "many_regions", builds: &[Build::Std], kind: Kind::Random { quick: 400, thorough: 30_000, max_words: 200 }, run: run_many },
             SubCheck { name: "xen_regions", builds: &[Build::Xen], kind: Kind::Random { quick: 3_000, thorough: 200_000, max_words: 160 }, run: run_xen },
             SubCheck { name: "top_region", builds: &[Build::Std, Build::Xen], kind: Kind::Random { quick: 300, thorough: 20_000, max_words: 100 }, run: run_top },
         ],
